@@ -372,6 +372,9 @@ impl HCtx {
             vec![vec![]] // one empty chunk
         } else if let Some(rest) = body.strip_prefix("chunks:") {
             rest.split(',').map(|s| { let n: usize = s.parse().unwrap(); self.l1.rng.bytes(n) }).collect()
+        } else if body.starts_with("z:") {
+            // z:LEN:K  one chunk of LEN position-dependent bytes (see l1::payload)
+            vec![self.l1.payload(body)]
         } else if let Some(rest) = body.strip_prefix("big:") {
             // big:TOTAL:K  K chunks summing to TOTAL, cheap content
             let mut it = rest.split(':');
